@@ -176,9 +176,15 @@ class Run:
                     case = json.loads(open(jpath).read().strip() or "null")
                 except Exception:
                     case = None
-                stage["crashes"] += 1
                 sig = -rc if rc < 0 else rc
-                if sig == signal.SIGKILL:
+                if rc == 3:
+                    stage["watchdog"] += 1
+                    self.inconc.append(dict(what="case exceeded the wall-clock watchdog", stage=name, shard=i, case=case))
+                else:
+                    stage["crashes"] += 1
+                if rc == 3:
+                    pass
+                elif sig == signal.SIGKILL:
                     self.inconc.append(dict(what="killed (SIGKILL, probably out of memory)", stage=name, shard=i, case=case))
                 else:
                     self.record_crash(scale, case, sig, name)
